@@ -33,6 +33,7 @@ pub fn static_family() -> Vec<(String, Program)> {
                 Item::Alias("MaybeByte".into(), Ty::opt(u(8))),
                 f("first", vec![("p", alias("Pair"))], Some(u(8)), vec![let_(Pat::Tuple(vec![Pat::id("a"), Pat::id("b")]), alias("Pair"), var("p"))], Some(var("a"))),
                 f("twice", vec![("x", u(8))], Some(u(16)), vec![], Some(cast(Ty::tup(vec![u(8), u(8)]), Expr::Tuple(vec![var("x"), var("x")])))),
+                f("pick", vec![("a", u(8)), ("b", u(8)), ("c", u(16))], Some(u(16)), vec![let_(Pat::id("t"), u(8), var("b"))], Some(var("c"))),
                 f("both", vec![("p", alias("Pair"))], Some(Ty::Bool), vec![], Some(jet("eq_16", vec![fcall("twice", vec![fcall("first", vec![var("p")])]), par("LIMIT")]))),
                 f(
                     "main",
@@ -41,6 +42,7 @@ pub fn static_family() -> Vec<(String, Program)> {
                     vec![
                         let_(Pat::id("p"), alias("Pair"), Expr::Tuple(vec![wit("A"), dec(513)])),
                         s(assert_(fcall("both", vec![var("p")]))),
+                        s(assert_(jet("eq_16", vec![fcall("pick", vec![dec(1), dec(2), dec(513)]), dec(513)]))),
                         let_(Pat::id("m"), alias("MaybeByte"), Expr::Some(Box::new(fcall("first", vec![var("p")])))),
                         let_(Pat::id("v"), u(8), match_(var("m"), (MPat::None, dec(0)), (MPat::Some("x".into(), u(8)), var("x")))),
                         s(assert_(jet("eq_8", vec![var("v"), wit("B")]))),
